@@ -262,30 +262,3 @@ Proof.
   - vm_compute. discriminate.
   - vm_compute. discriminate.
 Qed.
-
-(* ---- a pinned name of a nested scope is not reserved ----
-   ComputeReservedNames collects pinned names of the module scopes and of
-   direct-eval chains only.  A symbol pinned for another reason (it is
-   referenced inside `with`) in a nested scope keeps its name, but that name
-   is not in the reserved set, so the minifier may hand it to another symbol
-   that is visible in the same scope.  Witness (replayed on the real code by
-   the fixed corpus, scenario with-pinned-nested-name-captured-by-minified-name):
-   symbol 0 "a" pinned in a function scope, symbol 1 "zz" declared in a block
-   below it. *)
-Definition wp_syms : symtab :=
-  [mkSym [97] NsPinned None false 0 0; mkSym [122; 122] NsDefault None false 0 1].
-Definition wp_module : scope :=
-  Scope [] [] None false [Scope [0%nat] [] None false [Scope [1%nat] [] None false []]].
-Definition wp_names : option (name * name) :=
-  let reserved := ComputeReservedNames wp_syms [wp_module] in
-  let '(sm, total) := AssignNestedScopeSlots wp_syms wp_module in
-  match minify_rename 100 wp_syms sm total [0] reserved default_minifier [] [[(1%nat, 1)]] with
-  | Some m => Some (minify_name_for wp_syms sm m 0, minify_name_for wp_syms sm m 1)
-  | None => None
-  end.
-
-Lemma minify_pinned_nested_collision :
-  wf_slots wp_syms wp_module = true /\
-  In [1%nat; 0%nat] (slot_vis_forest (sc_children wp_module) (module_top wp_module)) /\
-  wp_names = Some ([97], [97]).
-Proof. split; [vm_compute; reflexivity | split; [vm_compute; auto | vm_compute; reflexivity]]. Qed.
